@@ -17,15 +17,22 @@ Definition single (k : bytes) (c : option entry) : store := fun k' => if bytes_e
 Section Inst.
 Variable now : N.
 
-Fixpoint to_cprog (k : bytes) (p : prog) (acc : list rcall) : cprog cell sres :=
+(* [one] = a one-tier deployment (L1Only): its only backend is the authoritative one and lives
+   in the SECOND component of the cell (the first stays empty), so that [absv]/[cinv] below
+   read the same way for every deployment *)
+Fixpoint to_cprog_gen (one : bool) (k : bytes) (p : prog) (acc : list rcall) : cprog cell sres :=
   match p with
   | Ret e => CRet (render_all Bin (rev acc), render_all Text (rev acc), e)
-  | Call L1 q f => CStep (fun c => let '(s', r) := std_exec (single k (fst c)) now q in
-                                   ((s' k, snd c), to_cprog k (f r) acc))
-  | Call L2 q f => CStep (fun c => let '(s', r) := std_exec (single k (snd c)) now q in
-                                   ((fst c, s' k), to_cprog k (f r) acc))
-  | Emit c p' => to_cprog k p' (c :: acc)
+  | Call t q f =>
+      if (match t with L1 => negb one | L2 => false end)
+      then CStep (fun c => let '(s', r) := std_exec (single k (fst c)) now q in
+                           ((s' k, snd c), to_cprog_gen one k (f r) acc))
+      else CStep (fun c => let '(s', r) := std_exec (single k (snd c)) now q in
+                           ((fst c, s' k), to_cprog_gen one k (f r) acc))
+  | Emit c p' => to_cprog_gen one k p' (c :: acc)
   end.
+Definition to_cprog := to_cprog_gen false.
+Definition is_one (k : orcakind) : bool := match k with KL1Only => true | _ => false end.
 
 (* the key a single-key request works on *)
 Definition req_key (r : req) : option bytes :=
@@ -35,22 +42,22 @@ Definition req_key (r : req) : option bytes :=
   end.
 
 (* LockedOrca: the sections of one client command (orcas/locked.go) *)
-Fixpoint get_sections (o : req -> prog) (gete : bool) (items : list gitem) (no : N) (ne : bool)
+Fixpoint get_sections (one : bool) (o : req -> prog) (gete : bool) (items : list gitem) (no : N) (ne : bool)
   : list (section cell sres) :=
   match items with
   | [] => []
-  | [it] => [mkSec (gi_key it) false (to_cprog (gi_key it) (o (if gete then RGetE [it] no ne else RGet [it] no ne)) [])]
+  | [it] => [mkSec (gi_key it) false (to_cprog_gen one (gi_key it) (o (if gete then RGetE [it] no ne else RGet [it] no ne)) [])]
   | it :: rest => mkSec (gi_key it) false
-                    (to_cprog (gi_key it) (o (if gete then RGetE [it] 0 false else RGet [it] 0 false)) [])
-                  :: get_sections o gete rest no ne
+                    (to_cprog_gen one (gi_key it) (o (if gete then RGetE [it] 0 false else RGet [it] 0 false)) [])
+                  :: get_sections one o gete rest no ne
   end.
 Definition sections_of (k : orcakind) (r : req) : list (section cell sres) :=
   let o := base_orca k in
   match r with
-  | RGet items no ne => get_sections o false items no ne
-  | RGetE items no ne => get_sections o true items no ne
+  | RGet items no ne => get_sections (is_one k) o false items no ne
+  | RGetE items no ne => get_sections (is_one k) o true items no ne
   | _ => match req_key r with
-         | Some key => [mkSec key true (to_cprog key (o r) [])]
+         | Some key => [mkSec key true (to_cprog_gen (is_one k) key (o r) [])]
          | None => []                       (* noop, version, stat, quit, unknown: no lock *)
          end
   end.
